@@ -176,7 +176,7 @@ Section Validity.
             destruct (eval_top C (mo sys pv) d) as [fl|x]; cbn [bind] in *; [|discriminate]. injection E as <-. auto.
         - intros E. exists text, pv. destruct (wrap_rt (yload text)) as [d|x]; cbn [bind] in *; [|discriminate].
           destruct (eval_top C (mo sys pv) d) as [fl|x]; cbn [bind] in *; [|discriminate]. injection E as <-. auto. }
-      destruct (fs_kind t (top_path C)); [discriminate| |];
+      destruct (fs_kind t (top_path C)); try discriminate;
         (destruct (wrap_rt (render_path C render_o t (top_path C))) as [txt|x]; cbn [bind]; [apply G | discriminate]).
     Qed.
 
